@@ -85,18 +85,21 @@ theorem Adv.of_rr {σ} {P : Peer σ} {c c' : Chan σ} {req r : Bytes}
   obtain ⟨h1, h2⟩ := rr_ok P c c' req r h
   exact ⟨by simp [feedPeer, h1], h2⟩
 
-/-- the request frame of one raw write (none when an expedited stream is still waiting for data) -/
+/-- the request frame of one raw write (none when an expedited stream is still collecting data) -/
 def writeFrames (w : WS) (b : Bytes) : List Bytes :=
   match w.expHeader with
-  | some hdr => if b.length < w.size.getD 0 then [] else [hdr ++ padTo 4 b]
+  | some hdr => if b.length < w.size.getD 0 - w.pending.length then []
+                else [hdr ++ padTo 4 (w.pending ++ expTake w b)]
   | none => [segDownCmd w.toggle (min b.length 7) (reachesSize w.size (w.pos + min b.length 7))
               :: padTo 7 (b.take (min b.length 7))]
 
 /-- the stream state and count after a successful raw write -/
 def writeResult (w : WS) (b : Bytes) : WS × Nat :=
   match w.expHeader with
-  | some _ => if b.length < w.size.getD 0 then (w, 0)
-              else ({ w with done := true, pos := w.pos + b.length }, b.length)
+  | some _ => if b.length < w.size.getD 0 - w.pending.length then
+                ({ w with pending := w.pending ++ b, pos := w.pos + b.length }, b.length)
+              else ({ w with done := true, pos := w.pos + (expTake w b).length, pending := [] },
+                    (expTake w b).length)
   | none => ({ w with toggle := w.toggle ^^^ TOGGLE_BIT,
                       done := reachesSize w.size (w.pos + min b.length 7),
                       pos := w.pos + min b.length 7 }, min b.length 7)
@@ -106,21 +109,23 @@ def writeResult (w : WS) (b : Bytes) : WS × Nat :=
 theorem wsWrite_ok {σ} (P : Peer σ) (c c' : Chan σ) (w w' : WS) (b : Bytes) (n : Nat)
     (h : wsWrite P c w b = (c', .ok (w', n))) :
     Adv P c c' (writeFrames w b) ∧ (w', n) = writeResult w b := by
-  obtain ⟨size, pos, toggle, eh, done⟩ := w
+  obtain ⟨size, pos, toggle, eh, done, pending⟩ := w
   cases done
   · cases eh with
     | some hdr =>
       simp only [wsWrite, Bool.false_eq_true, if_false, writeFrames, writeResult] at h ⊢
-      by_cases hlt : b.length < size.getD 0
+      by_cases hlt : b.length < size.getD 0 - pending.length
       · simp only [hlt, if_true, Prod.mk.injEq, Except.ok.injEq] at h ⊢
         obtain ⟨rfl, rfl, rfl⟩ := h
-        refine ⟨Adv.refl P c, ?_⟩
-        simp
+        exact ⟨Adv.refl P c, rfl, rfl⟩
       · simp only [hlt, if_false] at h ⊢
-        by_cases h4 : b.length > 4
+        by_cases h4 : (pending.isEmpty && decide (b.length > 4)) = true
         · simp [h4] at h
-        · simp only [h4, if_false] at h
-          cases hrr : requestResponse P c (hdr ++ padTo 4 b) with
+        · simp only [h4, Bool.false_eq_true, if_false] at h
+          cases hrr : requestResponse P c
+              (hdr ++ padTo 4 (pending ++ expTake
+                { size := size, pos := pos, toggle := toggle, expHeader := some hdr, done := false,
+                  pending := pending } b)) with
           | mk c1 r1 =>
             rw [hrr] at h
             cases r1 with
@@ -211,9 +216,12 @@ theorem wsClose_ok {σ} (P : Peer σ) (c c' : Chan σ) (w w' : WS) (h : wsClose 
         simp only [Prod.mk.injEq, Except.ok.injEq] at h
         obtain ⟨rfl, _⟩ := h
         exact Adv.of_rr hrr
-  · simp only [hc, Bool.false_eq_true, if_false, Prod.mk.injEq, Except.ok.injEq] at h ⊢
-    obtain ⟨rfl, _⟩ := h
-    exact Adv.refl P c
+  · simp only [hc, Bool.false_eq_true, if_false] at h ⊢
+    split at h
+    · simp at h
+    · simp only [Prod.mk.injEq, Except.ok.injEq] at h
+      obtain ⟨rfl, _⟩ := h
+      exact Adv.refl P c
 
 /-- the initiate frame (none for an expedited download) and the stream it creates -/
 def initFrames (idx sub : Nat) (size : Option Nat) (force : Bool) : List Bytes × WS :=
